@@ -556,6 +556,14 @@ func (w *c12World) sync() {
 		if !m.Dead && m.NS != nil {
 			if m.Shadow = w.shadowOf(m); m.Shadow != nil {
 				m.ShadowN = m.Shadow.Path
+				// the same router key may meanwhile belong to a mount of the shadowing
+				// namespace itself (the parent's mount lost its route): out of the workload
+				for _, o := range w.mounts {
+					if o != m && !o.Dead && o.NS != nil && o.Shadow == nil && o.NS.Path+o.api() == m.NS.Path+m.api() {
+						m.Dead = true
+						w.r.Count("shadowed_mounts_whose_route_was_taken_over", 1)
+					}
+				}
 			}
 		}
 	}
